@@ -99,6 +99,9 @@ type scriptReader struct {
 	chunks []int
 	ci     int
 	used   int
+	// errWithData: the end of the data (EOF or the injected error) is reported by the same Read call that
+	// delivers the last bytes, as io.Reader allows (iotest.DataErrReader, some network readers)
+	errWithData bool
 }
 
 func (r *scriptReader) Read(p []byte) (int, error) {
@@ -125,6 +128,12 @@ func (r *scriptReader) Read(p []byte) (int, error) {
 	}
 	copy(p, r.data[r.used:r.used+n])
 	r.used += n
+	if r.errWithData && r.used == limit && n > 0 {
+		if limit < len(r.data) && r.fault == "inj" {
+			return n, errInj
+		}
+		return n, io.EOF
+	}
 	return n, nil
 }
 
@@ -196,7 +205,7 @@ func execPB(in In, em *Emitter) {
 			ev = J{"kind": kind, "hasver": hasver, "ver": strJ(ver), "enc": bytesJ(enc), "wcalls": calls,
 				"n": num(n), "err": pbErrClass(merr), "written": bytesJ(w.got), "size": size, "hsize": hsize}
 		case "Unmarshal", "ReadHeader":
-			rd := &scriptReader{data: wire[rpos:], avail: op.Int("avail"), fault: op.S("fault")}
+			rd := &scriptReader{data: wire[rpos:], avail: op.Int("avail"), fault: op.S("fault"), errWithData: op.has("ewd") && op.Bool("ewd")}
 			for _, c := range op.Is("chunks") {
 				rd.chunks = append(rd.chunks, int(c))
 			}
@@ -276,6 +285,17 @@ func pbMarshalOp(g *Gen, kind string, bodyLen int) J {
 	return J{"k": "Marshal", "kind": kind, "hasver": hasver, "ver": strJ(pbVers[r.Intn(len(pbVers))]), "payload": bytesJ(payload), "w": [][]int64{}}
 }
 
+// withEWD marks about a third of the read operations of a history as using a reader that reports the end of
+// its data together with the last bytes.
+func withEWD(g *Gen, ops []J) []J {
+	for _, op := range ops {
+		if k := op["k"]; (k == "Unmarshal" || k == "ReadHeader") && g.R.Intn(3) == 0 {
+			op["ewd"] = true
+		}
+	}
+	return ops
+}
+
 func genC06(g *Gen) {
 	r := g.R
 	genBigFrames(g, g.N(4, 24))
@@ -309,7 +329,7 @@ func genC06(g *Gen) {
 		}
 		// reading past the last frame: clean EOF
 		ops = append(ops, J{"k": "Unmarshal", "avail": -1, "fault": "EOF", "chunks": pbChunks(g), "kind": "raw"})
-		g.Case("pb", J{"ops": ops})
+		g.Case("pb", J{"ops": withEWD(g, ops)})
 	}
 }
 
@@ -326,7 +346,7 @@ func genBigFrames(g *Gen, n int) {
 			J{"k": "Unmarshal", "avail": -1, "fault": "EOF", "chunks": pbChunks(g), "kind": "raw"},
 			J{"k": "Unmarshal", "avail": -1, "fault": "EOF", "chunks": pbChunks(g), "kind": "pb"},
 			J{"k": "Unmarshal", "avail": -1, "fault": "EOF", "chunks": []int64{}, "kind": "raw"})
-		g.Case("pb", J{"ops": ops})
+		g.Case("pb", J{"ops": withEWD(g, ops)})
 	}
 }
 
@@ -373,7 +393,7 @@ func genC07(g *Gen) {
 				ops := []J{mk,
 					{"k": "Unmarshal", "avail": k, "fault": fault, "chunks": pbChunks(g), "kind": kind},
 					{"k": "Unmarshal", "avail": -1, "fault": "EOF", "chunks": []int64{}, "kind": "raw"}}
-				g.Case("pb", J{"ops": ops})
+				g.Case("pb", J{"ops": withEWD(g, ops)})
 			}
 			if k <= 40 || k%5 == 0 {
 				g.Case("pb", J{"ops": []J{mk, {"k": "ReadHeader", "avail": k, "fault": []string{"EOF", "inj"}[k%2], "chunks": pbChunks(g), "kind": kind}}})
@@ -389,7 +409,7 @@ func genC07(g *Gen) {
 			for _, k := range ks {
 				for _, fault := range []string{"EOF", "inj"} {
 					ops := []J{mk, {"k": "Unmarshal", "avail": k, "fault": fault, "chunks": pbChunks(g), "kind": kind}}
-					g.Case("pb", J{"ops": ops})
+					g.Case("pb", J{"ops": withEWD(g, ops)})
 				}
 			}
 		}
@@ -414,7 +434,7 @@ func genC07(g *Gen) {
 			bad["w"] = wp
 			// the truncated output is then read back: never a success
 			ops := []J{bad, {"k": "Unmarshal", "avail": -1, "fault": "EOF", "chunks": pbChunks(g), "kind": "raw"}}
-			g.Case("pb", J{"ops": ops})
+			g.Case("pb", J{"ops": withEWD(g, ops)})
 		}
 	}
 	// one large frame, read again and again (Rewind) with the stream cut at every block boundary j*2^k and
@@ -441,7 +461,7 @@ func genC07(g *Gen) {
 				}
 			}
 		}
-		g.Case("pb", J{"ops": ops})
+		g.Case("pb", J{"ops": withEWD(g, ops)})
 	}
 	// corrupt headers: header-size and body-size fields set to any uint64
 	hsVals := []uint64{0, 31, 33, 1 << 32, 1 << 63, ^uint64(0), 32 << 8, 32 | 1<<56}
@@ -489,7 +509,7 @@ func genC07(g *Gen) {
 			}
 			ops = append(ops, J{"k": k, "avail": -1, "fault": "EOF", "chunks": pbChunks(g), "kind": "raw"})
 		}
-		g.Case("pb", J{"ops": ops})
+		g.Case("pb", J{"ops": withEWD(g, ops)})
 	}
 	// random fault schedules over several frames
 	for c := 0; c < g.N(200, 8000); c++ {
@@ -508,6 +528,6 @@ func genC07(g *Gen) {
 			}
 			ops = append(ops, J{"k": "Unmarshal", "avail": avail, "fault": []string{"EOF", "inj"}[r.Intn(2)], "chunks": pbChunks(g), "kind": "raw"})
 		}
-		g.Case("pb", J{"ops": ops})
+		g.Case("pb", J{"ops": withEWD(g, ops)})
 	}
 }
